@@ -34,6 +34,7 @@ def layout_case(tag, world, opts, prestate=None, input_bytes=None, config_text=N
     apply_prestate(w, opts, world, prestate or [])
     if bystanders:
         add_bystanders(w, opts)
+        add_lock_files(w, files)
     return w, files
 
 
@@ -52,6 +53,23 @@ def add_bystanders(w, opts):
                 if not os.path.lexists(p) and (k + j) % 2 == 0:
                     with open(p, "wb") as fh:
                         fh.write(b"bystander %d %d\n" % (k, j))
+        except OSError:
+            pass
+
+
+def add_lock_files(w, files):
+    """What an office program leaves next to a spreadsheet that is (or was, before a crash) open in it: '.~lock.<name>#' - one stale
+    (as old as a file can be), one fresh for the config."""
+    for key, old in (("input", True), ("config", False)):
+        rel = files.get(key)
+        if not rel:
+            continue
+        p = os.path.join(w.work, os.path.dirname(rel), ".~lock.%s#" % os.path.basename(rel))
+        try:
+            with open(p, "w", encoding="utf-8") as fh:
+                fh.write(",user,host,01.01.2020 10:00,file:///home/user/.config/libreoffice/4;")
+            if old:
+                os.utime(p, ns=(10**9, 10**9))
         except OSError:
             pass
 
